@@ -83,35 +83,10 @@ Qed.
 Lemma last_is_snoc c v x : last_is c (v ++ [x]) = aeq x c.
 Proof. unfold last_is. rewrite rev_app_distr. reflexivity. Qed.
 
-Lemma trim_l_not_dq s : head_is dq s = false -> trim_l s = s.
-Proof. destruct s as [|c r]; simpl; [reflexivity | now intros ->]. Qed.
-
-Lemma trim_l_dq r : trim_l (dq :: r) = trim_l r.
-Proof. reflexivity. Qed.
-
-Lemma head_is_app c a b : a <> [] -> head_is c (a ++ b) = head_is c a.
-Proof. destruct a; [contradiction | reflexivity]. Qed.
-
-Lemma trim_q_quoted v : last_is dq v = false -> trim_q (quoted v) = escape v.
+Lemma post_quoted v : post (quoted v) = v.
 Proof.
-  intros Hl. unfold trim_q, quoted. rewrite trim_l_dq.
-  destruct (rev v) as [|x rv] eqn:Erv.
-  - apply (f_equal (@rev _)) in Erv. rewrite rev_involutive in Erv. subst v. reflexivity.
-  - apply (f_equal (@rev _)) in Erv. rewrite rev_involutive in Erv. cbn [rev] in Erv. subst v.
-    rewrite last_is_snoc in Hl.
-    assert (Hne : escape (rev rv ++ [x]) <> []).
-    { rewrite escape_app. cbn [escape]. rewrite Hl. intros H. apply app_eq_nil in H as [_ H]. discriminate. }
-    rewrite (trim_l_not_dq (escape (rev rv ++ [x]) ++ [dq])).
-    2:{ rewrite head_is_app by exact Hne. apply escape_head_not_dq. }
-    rewrite rev_app_distr. cbn [rev app]. rewrite trim_l_dq.
-    rewrite trim_l_not_dq; [apply rev_involutive|].
-    rewrite escape_app. cbn [escape]. rewrite Hl. rewrite rev_app_distr. cbn [rev app head_is]. exact Hl.
-Qed.
-
-Lemma post_quoted v : last_is dq v = false -> post (quoted v) = v.
-Proof.
-  intros Hl. unfold post. change (quoted v) with (dq :: escape v ++ [dq]) at 1.
-  change (aeq dq dq) with true. cbv iota. rewrite (trim_q_quoted v Hl). apply unescape_escape.
+  unfold post, quoted. change (aeq dq dq) with true. cbv iota.
+  rewrite removelast_last. apply unescape_escape.
 Qed.
 
 Lemma post_bare v : head_is dq v = false -> post v = v.
@@ -233,7 +208,7 @@ Proof.
   induction v as [|c r IH]; simpl; [reflexivity|]. intros H1 H2.
   apply andb_true_iff in H1 as [Hc H1]. apply andb_true_iff in H2 as [Hq H2].
   rewrite (IH H1 H2), andb_true_r. unfold not_sp_eq, not_q_sp in *.
-  apply andb_true_iff in Hq as [_ Hq]. now rewrite Hq, Hc.
+  apply andb_true_iff in Hq as [Hd Hq]. now rewrite Hq, Hc, Hd.
 Qed.
 
 Lemma token_word v rest : word_ok v = true -> no_inner_eq v = true -> sep_ok rest ->
@@ -263,33 +238,12 @@ Proof.
   rewrite aeq_refl. now rewrite Hv.
 Qed.
 
-Lemma span_quoted_safe v rest : head_ok v = true -> sep_ok rest ->
-  safe_after (snd (span not_sp_eq (escape v ++ dq :: rest))).
+Lemma token_quoted v rest : qval_ok v = true -> token (quoted v ++ rest) = Some ([], quoted v, rest).
 Proof.
-  induction v as [|c r IH]; intros Hh Hs.
-  - cbn [escape app]. rewrite span_snd_pass by reflexivity.
-    destruct Hs as [->|[t ->]]; [exact I|]. rewrite span_snd_stop by reflexivity. now left.
-  - cbn [head_ok] in Hh. destruct (is_space c) eqn:Ec.
-    + cbn [escape]. rewrite (space_not_dq c Ec). cbn [app].
-      rewrite span_snd_stop by (unfold not_sp_eq; now rewrite Ec). left. exact (space_not_eq c Ec).
-    + destruct (aeq c eqc) eqn:Ee.
-      * apply aeq_eq in Ee. subst c. destruct r as [|sp r']; [discriminate|].
-        cbn [escape]. change (aeq eqc dq) with false. cbv iota. cbn [app].
-        rewrite span_snd_stop by reflexivity.
-        right. rewrite (space_not_dq sp Hh). cbn [app]. eauto.
-      * specialize (IH Hh Hs). cbn [escape]. destruct (aeq c dq) eqn:Eq.
-        -- cbn [app]. rewrite span_snd_pass by reflexivity. rewrite span_snd_pass by reflexivity. exact IH.
-        -- cbn [app]. rewrite span_snd_pass; [exact IH|]. unfold not_sp_eq. now rewrite Ec, Ee.
-Qed.
-
-Lemma token_quoted v rest : qval_ok v = true -> head_ok v = true -> sep_ok rest ->
-  token (quoted v ++ rest) = Some ([], quoted v, rest).
-Proof.
-  intros Hq Hh Hs. unfold qval_ok in Hq. apply andb_true_iff in Hq as [_ Hb]. apply negb_true_iff in Hb.
+  intros Hq. unfold qval_ok in Hq. apply negb_true_iff in Hq.
   rewrite token_unnamed.
-  - unfold unnamed. now rewrite (value_quoted v rest Hb).
-  - right. unfold quoted. cbn [app]. rewrite span_snd_pass by reflexivity.
-    rewrite <- app_assoc. cbn [app]. now apply span_quoted_safe.
+  - unfold unnamed. now rewrite (value_quoted v rest Hq).
+  - left. unfold quoted. cbn [app]. now apply span_fst_stop.
 Qed.
 
 (* what one item contributes *)
@@ -299,27 +253,27 @@ Definition item_raw (it : item) : la :=
 Lemma token_item it rest : v0_item it = true -> sep_ok rest ->
   token (render_item it ++ rest) = Some (fst (item_pair it), item_raw it, rest).
 Proof.
-  destruct it as [v|v|n v|n v]; simpl; intros H Hs; apply andb_true_iff in H as [H1 H2].
+  destruct it as [v|v|n v|n v]; simpl; intros H Hs; [apply andb_true_iff in H as [H1 H2]| |apply andb_true_iff in H as [H1 H2]|apply andb_true_iff in H as [H1 H2]].
   - now apply token_word.
   - now apply token_quoted.
   - rewrite <- app_assoc. simpl. apply token_named; [assumption|]. now apply value_word.
   - rewrite <- app_assoc. simpl. apply token_named; [assumption|].
-    unfold qval_ok in H2. apply andb_true_iff in H2 as [_ Hb]. apply negb_true_iff in Hb.
+    unfold qval_ok in H2. apply negb_true_iff in H2.
     now apply value_quoted.
 Qed.
 
 Lemma post_item it : v0_item it = true -> post (item_raw it) = snd (item_pair it).
 Proof.
-  destruct it as [v|v|n v|n v]; simpl; intros H; apply andb_true_iff in H as [H1 H2].
+  destruct it as [v|v|n v|n v]; simpl; intros H; [apply andb_true_iff in H as [H1 H2]| |apply andb_true_iff in H as [H1 H2]|apply andb_true_iff in H as [H1 H2]].
   - destruct (word_ok_inv v H1) as (c & r & -> & Hq & _). apply post_bare. exact Hq.
-  - unfold qval_ok in H1. apply andb_true_iff in H1 as [Hd _]. apply negb_true_iff in Hd. now apply post_quoted.
+  - apply post_quoted.
   - destruct (word_ok_inv v H2) as (c & r & -> & Hq & _). apply post_bare. exact Hq.
-  - unfold qval_ok in H2. apply andb_true_iff in H2 as [Hd _]. apply negb_true_iff in Hd. now apply post_quoted.
+  - apply post_quoted.
 Qed.
 
 Lemma render_nonempty it : v0_item it = true -> exists c r, render_item it = c :: r.
 Proof.
-  destruct it as [v|v|n v|n v]; simpl; intros H; apply andb_true_iff in H as [H1 H2].
+  destruct it as [v|v|n v|n v]; simpl; intros H; [apply andb_true_iff in H as [H1 H2]| |apply andb_true_iff in H as [H1 H2]|apply andb_true_iff in H as [H1 H2]].
   - destruct (word_ok_inv v H1) as (c & r & -> & _). eauto.
   - unfold quoted. eauto.
   - destruct (name_ok_inv n H1) as (c & r & -> & _). simpl. eauto.
@@ -453,49 +407,42 @@ Lemma roundtrip_named_refuted : exists its, V0 its = true /\
   parse (record (parse (doc_render its))) <> parse (doc_render its).
 Proof. exists [INamedQ (L "X") (L "a b")]. split; [reflexivity | vm_compute; discriminate]. Qed.
 
-(* F11b: a quoted value ending in an (escaped) quote is mangled by Trim; one ending in a backslash swallows
-   the closing quote *)
-Lemma parse_doc_refuted_edge_quote : exists v, parse (doc_render [IQuoted v]) <> values [IQuoted v].
-Proof. exists (list_ascii_of_string "say " ++ dq :: list_ascii_of_string "hi" ++ [dq]). vm_compute. discriminate. Qed.
-
+(* what remains of F11b: a quoted value cannot END with a backslash - it swallows the closing quote *)
 Lemma parse_doc_refuted_edge_backslash : exists v w, parse (doc_render [IQuoted v; IQuoted w]) <> values [IQuoted v; IQuoted w].
 Proof. exists [ascii_of_nat 97; bs], [ascii_of_nat 98]. vm_compute. discriminate. Qed.
 
-(* F11c: an unnamed quoted value with an = before any space is tokenised as a named parameter *)
-Lemma parse_doc_refuted_eq : exists v, parse (doc_render [IQuoted v]) <> values [IQuoted v].
-Proof. exists (L "a=b"). vm_compute. discriminate. Qed.
+(* before fix 0f1faec (strings.Trim stripped every outer quote) this value lost its final quote
+   and kept the backslash of the escape  [F11b] *)
+Example parse_doc_fixed_edge_quote :
+  let v := list_ascii_of_string "say " ++ dq :: list_ascii_of_string "hi" ++ [dq] in
+  parse (doc_render [IQuoted v]) = values [IQuoted v].
+Proof. reflexivity. Qed.
+
+(* before fix ff6cf28 (a name could contain a quote) this was read as name Qa, value b  [F11c] *)
+Example parse_doc_fixed_eq : parse (doc_render [IQuoted (L "a=b")]) = values [IQuoted (L "a=b")].
+Proof. reflexivity. Qed.
 
 (* Every clause of V0 is needed by a class that judges items one by one: for each clause there is an item
-   violating just that clause and a documented context (the item alone, or followed by one harmless quoted item) in
-   which the parse goes wrong.  (Some such items happen to work when they are the LAST quoted item of the string -
-   a trailing backslash or a trailing = then meets no further quote; V0 does not look at the context.) *)
+   violating just that clause and a documented context in which the parse goes wrong. *)
 Lemma V0_clauses_needed :
-  (* quoted value ending in a quote *)
-  (exists v, qval_ok v = false /\ head_ok v = true /\ parse (doc_render [IQuoted v]) <> values [IQuoted v]) /\
   (* quoted value ending in a backslash *)
-  (exists v w, qval_ok v = false /\ head_ok v = true /\ v0_item (IQuoted w) = true /\
-               parse (doc_render [IQuoted v; IQuoted w]) <> values [IQuoted v; IQuoted w]) /\
-  (* unnamed quoted value whose first space-or-= is an = followed by a non-space *)
-  (exists v, qval_ok v = true /\ head_ok v = false /\ parse (doc_render [IQuoted v]) <> values [IQuoted v]) /\
-  (* ... or by the closing quote *)
-  (exists v w, qval_ok v = true /\ head_ok v = false /\ v0_item (IQuoted w) = true /\
+  (exists v w, qval_ok v = false /\ v0_item (IQuoted w) = true /\
                parse (doc_render [IQuoted v; IQuoted w]) <> values [IQuoted v; IQuoted w]) /\
   (* a bare word with a quote, with an inner =, starting with a back-tick *)
   (exists v, word_ok v = false /\ parse (doc_render [IWord v]) <> values [IWord v]) /\
   (exists v, word_ok v = true /\ no_inner_eq v = false /\ parse (doc_render [IWord v]) <> values [IWord v]) /\
   (exists v w, word_ok v = false /\ v0_item (IWord w) = true /\ parse (doc_render [IWord v; IWord w]) <> values [IWord v; IWord w]) /\
-  (* a name with an = *)
+  (* a name with an = or a quote *)
+  (exists n v, name_ok n = false /\ word_ok v = true /\ parse (doc_render [INamed n v]) <> values [INamed n v]) /\
   (exists n v, name_ok n = false /\ word_ok v = true /\ parse (doc_render [INamed n v]) <> values [INamed n v]).
 Proof.
   repeat split.
-  - exists (L "a" ++ [dq]). repeat split; try reflexivity. vm_compute. discriminate.
   - exists (L "a\"), (L "b"). repeat split; try reflexivity. vm_compute. discriminate.
-  - exists (L "a=b"). repeat split; try reflexivity. vm_compute. discriminate.
-  - exists (L "a="), (L "b"). repeat split; try reflexivity. vm_compute. discriminate.
   - exists (L "a" ++ dq :: L "b"). repeat split; try reflexivity. vm_compute. discriminate.
   - exists (L "a=b"). repeat split; try reflexivity. vm_compute. discriminate.
   - exists (L "`a"), (L "b`"). repeat split; try reflexivity. vm_compute. discriminate.
   - exists (L "a=b"), (L "c"). repeat split; try reflexivity. vm_compute. discriminate.
+  - exists (L "a" ++ dq :: L "b"), (L "c"). repeat split; try reflexivity. vm_compute. discriminate.
 Qed.
 
 (* ------------------------------------------------------------------------------------------------ *)
@@ -505,8 +452,8 @@ Qed.
    starting with = , a named word with = *)
 Example V0_example :
   V0 [IWord (L "a"); IQuoted (L "a b = c"); INamed (L "X") (L "1=2"); INamedQ (L "Y") (L " p=q  r ");
-      IQuoted (dq :: L "hi" ++ dq :: L " there"); IQuoted []; IWord (L "=x"); IQuoted (L "a= b");
-      INamedQ (L "Z") (L "`date` \x"); IQuoted (L "k =v")] = true.
+      IQuoted (dq :: L "hi" ++ dq :: L " there"); IQuoted []; IWord (L "=x"); IQuoted (L "a=b");
+      INamedQ (L "Z") (L "`date` \x"); IQuoted (L "say " ++ dq :: L "hi" ++ [dq]); IQuoted [dq]; IQuoted (L "=")] = true.
 Proof. reflexivity. Qed.
 
 Example V1_example : V1 [([], L "a"); (L "X", L "1=2"); ([], L "=x"); ([], L "a\b`c")] = true.
